@@ -30,6 +30,23 @@ func init() {
 			},
 		}
 	})
+	// a vectored Publish racing the retransmission after a reconnect
+	register("writers2", func() *Scenario {
+		return &Scenario{
+			Config: baseConfig(),
+			Actors: []ActorSpec{
+				{Name: "reader", Reader: &ReaderSpec{Backoff: true}},
+				{Name: "A", Ops: []Op{{Kind: "pub0", Topic: "w/a", Msg: []byte("A-0123456789-payload")}}},
+				{Name: "D", Ops: []Op{{Kind: "pub2", Topic: "w/d", Msg: []byte("D-payload")}, {Kind: "pub1", Topic: "w/e", Msg: []byte("E-payload")}}},
+			},
+			Faults:  Faults{Cut: true, NoResponse: true},
+			Horizon: 1500,
+			Final: func(w *World) {
+				w.monitorWire()
+				w.monitorRequests()
+			},
+		}
+	})
 	register("wedge", func() *Scenario {
 		return &Scenario{
 			Config: baseConfig(),
